@@ -18,7 +18,7 @@ theorem zip_range_map (m : Nat) (names : List Str) (f : Str → Str) :
 /-! ### the invariant, one operation at a time -/
 
 theorem inv_load {b : Bind} {s : State} (hI : Inv b s) (w : Which) (file : Str) (names : List Str) (indexed read : Bool)
-    (hw : (names.map fun n => pathJoin file n).Nodup) (hn : namesOK (.load w file names indexed read) = true) :
+    (hw : (names.map fun n => pathJoin file n).Nodup) (hn : loadOK (.load w file names indexed read) = true) :
     Inv (step b s (.load w file names indexed read)) (Registry.step s (.load w file names indexed read)).1 := by
   have hd := hI.coh w
   by_cases hany : ((names.map fun n => pathJoin file n).any fun k => hasKey (getDb s w).register k) = true
@@ -49,15 +49,8 @@ theorem inv_load {b : Bind} {s : State} (hI : Inv b s) (w : Which) (file : Str) 
         apply hnew
         rw [← hmapkeys]
         exact List.mem_map_of_mem (f := fun jn => pathJoin file jn.2) hjn
-      · intro hi jn hjn
-        have hn' : (if nameAddressed file then names.all fun n => relName file (pathJoin file n) == n else indexed) =
-            true := hn
-        rw [if_pos hi, List.all_eq_true] at hn'
-        have := hn' jn.2 (List.of_mem_zip hjn).2
-        simpa using this
       · intro hi
-        have hn' : (if nameAddressed file then names.all fun n => relName file (pathJoin file n) == n else indexed) =
-            true := hn
+        have hn' : (nameAddressed file || indexed) = true := hn
         rw [hi] at hn'
         simpa using hn'
     have hd1 : getDb (Registry.step s (.load w file names indexed false)).1 w =
@@ -97,23 +90,7 @@ theorem inv_add {b : Bind} {s : State} (hI : Inv b s) (w : Which) (name : Str) :
           (pathJoin (common (getDb s w).keys) name) = some (some s.next) := lookup_setKey_self _ _ _
       exact absurd this (hno _)
 
-theorem renameSafe_rename {s : State} {w : Which} {name newname old : Str}
-    (hl : listKeys (getDb s w).keys [name] = [old]) (hs : renameSafe s (.rename w name newname) = true) :
-    (∃ o, lookup (getDb s w).register old = some (some o)) ∨
-      nameAddressed (((lookup (getDb s w).parents old).getD none).getD []) = false := by
-  unfold renameSafe at hs
-  simp only [hl, Bool.or_eq_true] at hs
-  rcases hs with hs | hs
-  · left
-    rcases h : lookup (getDb s w).register old with _ | _ | o
-    · rw [h] at hs; simp at hs
-    · rw [h] at hs; simp at hs
-    · exact ⟨o, rfl⟩
-  · right
-    simpa using hs
-
-theorem inv_rename {b : Bind} {s : State} (hI : Inv b s) (w : Which) (name newname : Str)
-    (hs : renameSafe s (.rename w name newname) = true) :
+theorem inv_rename {b : Bind} {s : State} (hI : Inv b s) (w : Which) (name newname : Str) :
     Inv (step b s (.rename w name newname)) (Registry.step s (.rename w name newname)).1 := by
   have hd := hI.coh w
   rw [bstep_rename, step_rename]
@@ -130,7 +107,7 @@ theorem inv_rename {b : Bind} {s : State} (hI : Inv b s) (w : Which) (name newna
       obtain ⟨rc, hrc, _⟩ := hI.bound w old ho
       rw [hrc]
       exact inv_set' hI w (coh_renKey hd ho hn)
-        (bound_renKey hd (hI.bound w) ho hn rc hrc (renameSafe_rename hl hs))
+        (bound_renKey hd (hI.bound w) ho hn rc hrc)
   · exact hI
 
 theorem inv_clear {b : Bind} {s : State} (hI : Inv b s) (w : Which) (pattern : Option Str) :
@@ -151,7 +128,7 @@ theorem inv_update {b : Bind} {s : State} (hI : Inv b s) (names : Option (List S
   · rw [if_pos hany] at hcoh ⊢
     rw [if_pos hany]
     refine ⟨hcoh.1, hcoh.2, post.fresh, ?_, post.bound⟩
-    show Bound (readBind true s.b s.next (select s.b names) b.origins) s.a b.recA
+    show Bound (readBind true b.recB s.b s.next (select s.b names) b.origins) s.a b.recA
     rw [he1]
     exact bound_append e1 hI.boundA
   · rw [if_neg hany] at hcoh ⊢
@@ -166,7 +143,7 @@ theorem inv_update {b : Bind} {s : State} (hI : Inv b s) (names : Option (List S
       rw [readKeys_out_keys]; exact select_nodup _ _ hI.cohB.1
     obtain ⟨⟨e2, he2⟩, hf2, hb2, _⟩ := bound_cp_fold deep (readKeys s.b s.next (select s.b names) true).1 b.recB
       (readKeys s.b s.next (select s.b names) true).2.2 s.a (readKeys s.b s.next (select s.b names) true).2.1
-      (readBind true s.b s.next (select s.b names) b.origins) b.recA post.fresh
+      (readBind true b.recB s.b s.next (select s.b names) b.origins) b.recA post.fresh
       (by rw [he1]; exact bound_append e1 hI.boundA) hnd hnew post.outs
     refine ⟨hcoh.1, hcoh.2, hf2, hb2, ?_⟩
     show Bound (cpOs deep _ _ _) (readKeys s.b s.next (select s.b names) true).1 b.recB
@@ -185,7 +162,7 @@ theorem inv_copy {b : Bind} {s : State} (hI : Inv b s) (names : Option (List Str
     rw [readKeys_out_keys]; exact select_nodup _ _ hI.cohA.1
   obtain ⟨⟨e2, he2⟩, hf2, hb2, _⟩ := bound_cp_fold deep (readKeys s.a s.next (select s.a names) true).1 b.recA
     (readKeys s.a s.next (select s.a names) true).2.2 {} (readKeys s.a s.next (select s.a names) true).2.1
-    (readBind true s.a s.next (select s.a names) b.origins) [] post.fresh (bound_empty _ _) hnd
+    (readBind true b.recA s.a s.next (select s.a names) b.origins) [] post.fresh (bound_empty _ _) hnd
     (fun _ _ => List.not_mem_nil) post.outs
   refine ⟨hcoh.1, hcoh.2, hf2, ?_, hb2⟩
   show Bound (cpOs deep _ _ _) (readKeys s.a s.next (select s.a names) true).1 b.recA
@@ -194,12 +171,12 @@ theorem inv_copy {b : Bind} {s : State} (hI : Inv b s) (names : Option (List Str
 
 theorem inv_read {b : Bind} {s : State} (hI : Inv b s) (w : Which) (ks : List Str) (store : Bool)
     (hks : ∀ k ∈ ks, k ∈ (getDb s w).keys) :
-    Inv { b with origins := readBind store (getDb s w) s.next ks b.origins }
+    Inv { b with origins := readBind store (getRec b w) (getDb s w) s.next ks b.origins }
       { setDb s w (readKeys (getDb s w) s.next ks store).1 with next := (readKeys (getDb s w) s.next ks store).2.1 } := by
   have post := readKeys_bound store ks (getDb s w) s.next b.origins (getRec b w) hks hI.fresh (hI.bound w)
   have := inv_set hI w post.ext (coh_readKeys (hI.coh w) _ _ _ hks) post.fresh post.bound
-  have e : ({ setRec b w (getRec b w) with origins := readBind store (getDb s w) s.next ks b.origins } : Bind) =
-      { b with origins := readBind store (getDb s w) s.next ks b.origins } := by cases w <;> rfl
+  have e : ({ setRec b w (getRec b w) with origins := readBind store (getRec b w) (getDb s w) s.next ks b.origins } : Bind) =
+      { b with origins := readBind store (getRec b w) (getDb s w) s.next ks b.origins } := by cases w <;> rfl
   rwa [e] at this
 
 theorem inv_getm {b : Bind} {s : State} (hI : Inv b s) (w : Which) (names : Option (List Str)) (store : Bool) :
@@ -221,15 +198,15 @@ theorem inv_getInd {b : Bind} {s : State} (hI : Inv b s) (w : Which) (ind : Nat)
 
 /-! ### (a) the invariant over operations and histories -/
 
-/-- PARTIAL (the full statement, without `hs`, is false: `f17_counterexample'`).  Every well-formed operation preserves the
-binding invariant, except the one excluded by `renameSafe`: renaming a key that is not cached and whose parent file is
-name-addressed, i.e. a not-yet-read series of a .h5 .hdf5 .mat .tdms file — finding F17. -/
-theorem binding_step_partial' (b : Bind) (s : State) (op : Op) (hI : Inv b s) (hw : WellFormed op)
-    (hn : namesOK op = true) (hs : renameSafe s op = true) : Inv (step b s op) (Registry.step s op).1 := by
+/-- Every well-formed operation — load, rejected load, add, rename (of read or unread keys, of index- or name-addressed
+files), clear, update, copy, retrieval — preserves the binding invariant.  (Before the repair of finding F17 the rename of a
+not-yet-read series of a name-addressed file had to be excluded.) -/
+theorem binding_step' (b : Bind) (s : State) (op : Op) (hI : Inv b s) (hw : WellFormed op)
+    (hn : loadOK op = true) : Inv (step b s op) (Registry.step s op).1 := by
   cases op with
   | load w file names indexed read => exact inv_load hI w file names indexed read hw hn
   | add w name => exact inv_add hI w name
-  | rename w name newname => exact inv_rename hI w name newname hs
+  | rename w name newname => exact inv_rename hI w name newname
   | clear w pattern => exact inv_clear hI w pattern
   | update names deep => exact inv_update hI names deep
   | copy names deep => exact inv_copy hI names deep
@@ -253,22 +230,21 @@ theorem run_registry' (b : Bind) (s : State) (ops : List Op) :
     rw [← this]
 
 theorem binding_run_from (ops : List Op) (b : Bind) (s : State) (hI : Inv b s)
-    (hw : ∀ op ∈ ops, WellFormed op ∧ namesOK op = true) (hs : safeRun s ops = true) :
+    (hw : ∀ op ∈ ops, WellFormed op ∧ loadOK op = true) :
     Inv (run b s ops).1 (run b s ops).2.1 := by
   induction ops generalizing b s with
   | nil => exact hI
   | cons op ops ih =>
     rw [run_cons]
-    simp only [safeRun, Bool.and_eq_true] at hs
-    exact ih _ _ (binding_step_partial' b s op hI (hw op List.mem_cons_self).1 (hw op List.mem_cons_self).2 hs.1)
-      (fun o ho => hw o (List.mem_cons_of_mem _ ho)) hs.2
+    exact ih _ _ (binding_step' b s op hI (hw op List.mem_cons_self).1 (hw op List.mem_cons_self).2)
+      (fun o ho => hw o (List.mem_cons_of_mem _ ho))
 
 theorem binding_init' : Inv {} {} := inv_init
 
-/-- PARTIAL: after every history without the excluded rename the invariant holds. -/
-theorem binding_run_partial' (ops : List Op) (hw : ∀ op ∈ ops, WellFormed op ∧ namesOK op = true)
-    (hs : safeRun {} ops = true) : Inv (run {} {} ops).1 (run {} {} ops).2.1 :=
-  binding_run_from ops {} {} inv_init hw hs
+/-- After every history of well-formed operations the invariant holds. -/
+theorem binding_run' (ops : List Op) (hw : ∀ op ∈ ops, WellFormed op ∧ loadOK op = true) :
+    Inv (run {} {} ops).1 (run {} {} ops).2.1 :=
+  binding_run_from ops {} {} inv_init hw
 
 /-- What the invariant says about a cached object: its root origin is the record registered for its key. -/
 theorem inv_cached' {b : Bind} {s : State} (hI : Inv b s) (w : Which) (k : Str) (obj : Nat)
@@ -283,203 +259,27 @@ theorem inv_cached' {b : Bind} {s : State} (hI : Inv b s) (w : Which) (k : Str) 
 /-- … and about a key that is not cached: the next read constructs the series from the registered record. -/
 theorem inv_unread' {b : Bind} {s : State} (hI : Inv b s) (w : Which) (k : Str) (hk : k ∈ (getDb s w).keys)
     (h : ∀ obj, lookup (getDb s w).register k ≠ some (some obj)) :
-    ∃ rc, lookup (getRec b w) k = some rc ∧ readOrigin (getDb s w) k = rc.origin := by
+    ∃ rc, lookup (getRec b w) k = some rc ∧ readOrigin (getDb s w) (getRec b w) k = rc.origin := by
   obtain ⟨rc, h1, h2⟩ := hI.bound w k hk
-  exact ⟨rc, h1, h2.2 h⟩
+  refine ⟨rc, h1, ?_⟩
+  unfold readOrigin
+  rw [h1]
+  exact h2.2 h
 
 
-/-! ### index-addressed files: the invariant at full strength -/
-
-/-- A record that is not one of a name-addressed file. -/
-def RecIdx (rc : Rec) : Prop := ∀ f i n, rc = .onFile f i n → nameAddressed f = false
-
-def AllIdx (r : List (Str × Rec)) : Prop := ∀ p ∈ r, RecIdx p.2
-
-theorem allIdx_nil : AllIdx [] := fun p hp => absurd hp List.not_mem_nil
-
-theorem allIdx_setKey {r : List (Str × Rec)} (h : AllIdx r) (k : Str) {rc : Rec} (hrc : RecIdx rc) :
-    AllIdx (setKey r k rc) := by
-  intro p hp
-  rcases mem_setKey hp with hm | rfl
-  · exact h p hm
-  · exact hrc
-
-theorem allIdx_erase {r : List (Str × Rec)} (h : AllIdx r) (k : Str) : AllIdx (erase r k) := by
-  intro p hp
-  exact h p (List.mem_filter.mp hp).1
-
-theorem allIdx_erase_fold (m : List Str) (r : List (Str × Rec)) (h : AllIdx r) :
-    AllIdx (m.foldl (fun r k => erase r k) r) := by
-  induction m generalizing r with
-  | nil => exact h
-  | cons k m ih => exact ih _ (allIdx_erase h k)
-
-theorem allIdx_carry (src : List (Str × Rec)) (hs : AllIdx src) (cont : List (Str × Nat)) (dst : List (Str × Rec))
-    (hd : AllIdx dst) : AllIdx (carry src cont dst) := by
-  induction cont generalizing dst with
-  | nil => exact hd
-  | cons kv cont ih =>
-    rw [carry_cons]
-    apply ih
-    cases hl : lookup src kv.1 with
-    | none => exact hd
-    | some rc => exact allIdx_setKey hd _ (hs _ (mem_of_lookup hl))
-
-theorem allIdx_load_fold (file : Str) (hf : nameAddressed file = false) (l : List (Nat × Str)) (r : List (Str × Rec))
-    (h : AllIdx r) : AllIdx (l.foldl (recStep file) r) := by
-  induction l generalizing r with
-  | nil => exact h
-  | cons jn l ih =>
-    refine ih _ (allIdx_setKey h _ ?_)
-    intro f i n e
-    simp only [Rec.onFile.injEq] at e
-    rw [← e.1]; exact hf
-
-theorem getRec_setRec (b : Bind) (w : Which) (r : List (Str × Rec)) : getRec (setRec b w r) w = r := by
-  cases w <;> rfl
-
-theorem allIdx_setRec {b : Bind} (hA : AllIdx b.recA) (hB : AllIdx b.recB) (w : Which) {r : List (Str × Rec)}
-    (hr : AllIdx r) : AllIdx (setRec b w r).recA ∧ AllIdx (setRec b w r).recB := by
-  cases w
-  · exact ⟨hr, hB⟩
-  · exact ⟨hA, hr⟩
-
-theorem allIdx_getRec {b : Bind} (hA : AllIdx b.recA) (hB : AllIdx b.recB) (w : Which) : AllIdx (getRec b w) := by
-  cases w <;> assumption
-
-/-- The dictionaries hold records of name-addressed files only if such a file was loaded. -/
-theorem allIdx_step (b : Bind) (s : State) (op : Op) (hi : indexedOp op = true) (hA : AllIdx b.recA)
-    (hB : AllIdx b.recB) : AllIdx (step b s op).recA ∧ AllIdx (step b s op).recB := by
-  cases op with
-  | load w file names indexed read =>
-    have hi' : (!nameAddressed file && indexed) = true := hi
-    simp only [Bool.and_eq_true, Bool.not_eq_true'] at hi'
-    rw [bstep_load]
-    have hr := allIdx_load_fold file hi'.1 (List.zip (List.range names.length) names) _ (allIdx_getRec hA hB w)
-    split
-    · exact ⟨hA, hB⟩
-    · split
-      · exact allIdx_setRec hA hB w hr
-      · exact allIdx_setRec hA hB w hr
-  | add w name =>
-    rw [bstep_add]
-    split
-    · exact ⟨hA, hB⟩
-    · exact allIdx_setRec hA hB w (allIdx_setKey (allIdx_getRec hA hB w) _ (by intro f i n e; simp at e))
-  | rename w name newname =>
-    rw [bstep_rename]
-    split
-    · split
-      · exact ⟨hA, hB⟩
-      · split
-        · rename_i rc hrc
-          exact allIdx_setRec hA hB w (allIdx_setKey (allIdx_erase (allIdx_getRec hA hB w) _) _
-            ((allIdx_getRec hA hB w) _ (mem_of_lookup hrc)))
-        · exact ⟨hA, hB⟩
-    · exact ⟨hA, hB⟩
-  | clear w pattern =>
-    rw [bstep_clear]
-    exact allIdx_setRec hA hB w (allIdx_erase_fold _ _ (allIdx_getRec hA hB w))
-  | update names deep =>
-    rw [bstep_update]
-    simp only
-    split
-    · exact ⟨hA, hB⟩
-    · exact ⟨allIdx_carry _ hB _ _ hA, hB⟩
-  | copy names deep =>
-    rw [bstep_copy]
-    exact ⟨hA, allIdx_carry _ hA _ _ allIdx_nil⟩
-  | getm w names store => rw [bstep_getm]; exact ⟨hA, hB⟩
-  | getInd w ind store =>
-    rw [bstep_getInd]
-    split
-    · exact ⟨hA, hB⟩
-    · exact ⟨hA, hB⟩
-
-theorem namesOK_of_indexed (op : Op) (hi : indexedOp op = true) : namesOK op = true := by
-  cases op with
-  | load w file names indexed read =>
-    have hi' : (!nameAddressed file && indexed) = true := hi
-    simp only [Bool.and_eq_true, Bool.not_eq_true'] at hi'
-    show (if nameAddressed file then names.all fun n => relName file (pathJoin file n) == n else indexed) = true
-    rw [hi'.1, hi'.2]
-    rfl
-  | _ => rfl
-
-/-- Without records of name-addressed files every rename is a safe one. -/
-theorem renameSafe_of_allIdx {b : Bind} {s : State} (hI : Inv b s) (hA : AllIdx b.recA) (hB : AllIdx b.recB) (op : Op) :
-    renameSafe s op = true := by
-  cases op with
-  | rename w name newname =>
-    unfold renameSafe
-    rcases hl : listKeys (getDb s w).keys [name] with _ | ⟨old, _ | ⟨x, rest⟩⟩
-    · simp only [hl]
-    · simp only [hl]
-      have ho : old ∈ (getDb s w).keys := by
-        apply (listKeys_single_sublist (getDb s w).keys name).subset
-        rw [hl]; exact List.mem_singleton_self _
-      obtain ⟨rc, hrc, h1, h2⟩ := hI.bound w old ho
-      have hidx := (allIdx_getRec hA hB w) _ (mem_of_lookup hrc)
-      rw [Bool.or_eq_true]
-      by_cases hc : ∃ o, lookup (getDb s w).register old = some (some o)
-      · obtain ⟨o, ho⟩ := hc
-        left; rw [ho]
-      · right
-        have h3 := h2 (fun o ho => hc ⟨o, ho⟩)
-        unfold readOrigin at h3
-        simp only at h3
-        by_cases hna : nameAddressed (((lookup (getDb s w).parents old).getD none).getD []) = true
-        · exfalso
-          rw [if_pos hna] at h3
-          cases rc with
-          | onFile f j n =>
-            have := hidx f j n rfl
-            simp [Rec.origin, this] at h3
-          | mem id => simp [Rec.origin] at h3
-        · simpa using hna
-    · simp only [hl]
-  | _ => rfl
-
-theorem binding_run_indexed_from (ops : List Op) (b : Bind) (s : State) (hI : Inv b s) (hA : AllIdx b.recA)
-    (hB : AllIdx b.recB) (hw : ∀ op ∈ ops, WellFormed op ∧ indexedOp op = true) :
-    Inv (run b s ops).1 (run b s ops).2.1 := by
-  induction ops generalizing b s with
-  | nil => exact hI
-  | cons op ops ih =>
-    rw [run_cons]
-    obtain ⟨h1, h2⟩ := hw op List.mem_cons_self
-    have hidx := allIdx_step b s op h2 hA hB
-    exact ih _ _ (binding_step_partial' b s op hI h1 (namesOK_of_indexed op h2) (renameSafe_of_allIdx hI hA hB op))
-      hidx.1 hidx.2 (fun o ho => hw o (List.mem_cons_of_mem _ ho))
-
-/-- FULL STRENGTH for index-addressed files: after ANY history of well-formed operations in which every loaded file is
-index-addressed (.ts .tda .bin .asc .dat .csv .pkl) the invariant holds — through any number of renames, updates, copies and
-clears. -/
-theorem binding_run_indexed' (ops : List Op) (hw : ∀ op ∈ ops, WellFormed op ∧ indexedOp op = true) :
-    Inv (run {} {} ops).1 (run {} {} ops).2.1 :=
-  binding_run_indexed_from ops {} {} inv_init allIdx_nil allIdx_nil hw
-
-/-- … and every step of such a history preserves it (no `renameSafe` hypothesis). -/
-theorem binding_step_indexed' (b : Bind) (s : State) (op : Op) (hI : Inv b s) (hA : AllIdx b.recA) (hB : AllIdx b.recB)
-    (hw : WellFormed op) (hi : indexedOp op = true) :
-    Inv (step b s op) (Registry.step s op).1 ∧ AllIdx (step b s op).recA ∧ AllIdx (step b s op).recB :=
-  ⟨binding_step_partial' b s op hI hw (namesOK_of_indexed op hi) (renameSafe_of_allIdx hI hA hB op),
-    allIdx_step b s op hi hA hB⟩
-
-
-/-! ### the full statement is false for name-addressed files (finding F17) -/
+/-! ### the histories of the former finding F17, now bound correctly (regression) -/
 
 /-- Load a name-addressed file lazily, rename a series that was not read yet, read it. -/
 def f17ops : List Op :=
   [Op.load .A "/d/f.h5".toList ["a".toList, "b".toList] false false, Op.rename .A "a".toList "c".toList,
    Op.getm .A (some ["c".toList]) true]
 
-/-- … the same with two renamed series exchanging their names: nothing fails, both keys return the other record. -/
+/-- … the same with two renamed series exchanging their names. -/
 def f17swap : List Op :=
   [Op.load .A "/d/f.h5".toList ["a".toList, "b".toList] false false, Op.rename .A "a".toList "t".toList,
    Op.rename .A "b".toList "a".toList, Op.rename .A "t".toList "b".toList, Op.getm .A none true]
 
-theorem f17ops_wf : ∀ op ∈ f17ops, WellFormed op ∧ namesOK op = true := by
+theorem f17ops_wf : ∀ op ∈ f17ops, WellFormed op ∧ loadOK op = true := by
   intro op hop
   simp only [f17ops, List.mem_cons, List.not_mem_nil, or_false] at hop
   rcases hop with rfl | rfl | rfl
@@ -487,7 +287,7 @@ theorem f17ops_wf : ∀ op ∈ f17ops, WellFormed op ∧ namesOK op = true := by
   · exact ⟨trivial, rfl⟩
   · exact ⟨trivial, rfl⟩
 
-theorem f17swap_wf : ∀ op ∈ f17swap, WellFormed op ∧ namesOK op = true := by
+theorem f17swap_wf : ∀ op ∈ f17swap, WellFormed op ∧ loadOK op = true := by
   intro op hop
   simp only [f17swap, List.mem_cons, List.not_mem_nil, or_false] at hop
   rcases hop with rfl | rfl | rfl | rfl | rfl
@@ -497,42 +297,25 @@ theorem f17swap_wf : ∀ op ∈ f17swap, WellFormed op ∧ namesOK op = true := 
   · exact ⟨trivial, rfl⟩
   · exact ⟨trivial, rfl⟩
 
-/-- Counter-history to the unrestricted invariant: key `/d/f.h5/c` is registered for record 1 (`a`) of the file, but the
-series read for it is the data set looked up under the name `c` (which the file does not have: the real code raises). -/
-theorem f17_counterexample' :
+/-- Regression for F17 (kernel-evaluated): key `/d/f.h5/c` is registered for record 1 (`a`) of the file, and the series
+read for it is the data set `a`. -/
+theorem f17_history_bound' :
     (run {} {} f17ops).2.2 = [.done, .done, .series [("/d/f.h5/c".toList, 0)]] ∧
     lookup (run {} {} f17ops).1.recA "/d/f.h5/c".toList = some (.onFile "/d/f.h5".toList 1 "a".toList) ∧
-    root (run {} {} f17ops).1.origins 0 = some (.named "/d/f.h5".toList "c".toList) ∧
-    safeRun {} f17ops = false := by
+    root (run {} {} f17ops).1.origins 0 = some (.named "/d/f.h5".toList "a".toList) ∧
+    allBound (run {} {} f17ops).1 (run {} {} f17ops).2.1 = true := by
   decide +kernel
 
-/-- Silent variant: after exchanging the names of two not-yet-read series, key `…/b` (registered for record 1, `a`) returns
-the data set named `b` (record 2) and key `…/a` (registered for record 2) returns the data set named `a` — no error. -/
-theorem f17_swap_counterexample' :
+/-- Regression for the silent variant: after exchanging the names of two not-yet-read series, key `…/b` (registered for
+record 1, `a`) returns the data set `a` and key `…/a` (registered for record 2) the data set `b`. -/
+theorem f17_swap_history_bound' :
     (run {} {} f17swap).2.2 = [.done, .done, .done, .done,
       .series [("/d/f.h5/b".toList, 0), ("/d/f.h5/a".toList, 1)]] ∧
     lookup (run {} {} f17swap).1.recA "/d/f.h5/b".toList = some (.onFile "/d/f.h5".toList 1 "a".toList) ∧
-    root (run {} {} f17swap).1.origins 0 = some (.named "/d/f.h5".toList "b".toList) ∧
+    root (run {} {} f17swap).1.origins 0 = some (.named "/d/f.h5".toList "a".toList) ∧
     lookup (run {} {} f17swap).1.recA "/d/f.h5/a".toList = some (.onFile "/d/f.h5".toList 2 "b".toList) ∧
-    root (run {} {} f17swap).1.origins 1 = some (.named "/d/f.h5".toList "a".toList) := by
-  decide +kernel
-
-/-- The FULL statement of (a) — the invariant after every history of well-formed operations, name-addressed files
-included — is false. -/
-theorem binding_run_full_false' :
-    ¬ ∀ ops : List Op, (∀ op ∈ ops, WellFormed op ∧ namesOK op = true) → Inv (run {} {} ops).1 (run {} {} ops).2.1 := by
-  intro h
-  have hI := h f17ops f17ops_wf
-  obtain ⟨_, h2, h3, _⟩ := f17_counterexample'
-  have hreg : lookup (getDb (run {} {} f17ops).2.1 .A).register "/d/f.h5/c".toList = some (some 0) := by
-    decide +kernel
-  obtain ⟨rc, hrc, hroot⟩ := inv_cached' hI .A _ 0 hreg
-  have hrc' : lookup (run {} {} f17ops).1.recA "/d/f.h5/c".toList = some rc := hrc
-  rw [h2] at hrc'
-  simp only [Option.some.injEq] at hrc'
-  subst hrc'
-  rw [h3] at hroot
-  revert hroot
+    root (run {} {} f17swap).1.origins 1 = some (.named "/d/f.h5".toList "b".toList) ∧
+    allBound (run {} {} f17swap).1 (run {} {} f17swap).2.1 = true := by
   decide +kernel
 
 /-! ### (b) what retrieval returns -/
@@ -613,61 +396,5 @@ theorem rename_keeps_record' (b : Bind) (s : State) (hI : Inv b s) (w : Which) (
     rw [hs', getDb_setDb]
     exact lookup_mvKey_ne _ h1 h2
   · rw [hb']; exact setRec_origins _ _ _
-
-/-! ### names of a name-addressed file are found again from the key -/
-
-theorem replaceGo_skip (pat rep : Str) (l s : Str) : replaceGo pat rep l.length (l ++ s) = replaceGo pat rep 0 s := by
-  induction l with
-  | nil => rfl
-  | cons c l ih =>
-    show replaceGo pat rep (l.length + 1) (c :: (l ++ s)) = _
-    rw [replaceGo]
-    exact ih
-
-theorem replaceGo_noOcc (pat rep : Str) (s : Str) (h : ∀ t, t <:+ s → pat.isPrefixOf t = false) :
-    replaceGo pat rep 0 s = s := by
-  induction s with
-  | nil => rfl
-  | cons c cs ih =>
-    rw [replaceGo, h (c :: cs) (List.suffix_refl _)]
-    simp only [Bool.false_eq_true, if_false]
-    rw [ih (fun t ht => h t (ht.trans (List.suffix_cons c cs)))]
-
-/-- `namesOK` holds for every name that does not start with `/` and in which (preceded by `/`) the file path does not occur. -/
-theorem relName_pathJoin' (file name : Str) (hf : file ≠ []) (hl : file.getLast? ≠ some sep)
-    (hn : name.head? ≠ some sep) (hocc : ∀ t, t <:+ (sep :: name) → file.isPrefixOf t = false) :
-    relName file (pathJoin file name) = name := by
-  have hj : pathJoin file name = file ++ sep :: name := by
-    unfold pathJoin isAbs
-    have h1 : (name.head? == some sep) = false := by simpa using hn
-    have h2 : (file.isEmpty || file.getLast? == some sep) = false := by
-      cases file with
-      | nil => exact absurd rfl hf
-      | cons c f => simpa using hl
-    rw [h1, h2]
-    simp
-  rw [hj]
-  unfold relName replaceAll
-  cases file with
-  | nil => exact absurd rfl hf
-  | cons c f =>
-    simp only [List.isEmpty_cons, Bool.false_eq_true, if_false]
-    have hp : (c :: f).isPrefixOf (c :: f ++ sep :: name) = true := by
-      rw [List.isPrefixOf_iff_prefix]; exact List.prefix_append _ _
-    show (replaceGo (c :: f) [] 0 (c :: (f ++ sep :: name))).dropWhile (· == sep) = name
-    rw [replaceGo]
-    have hp' : (c :: f).isPrefixOf (c :: (f ++ sep :: name)) = true := hp
-    rw [hp']
-    simp only [if_true, List.nil_append, List.length_cons, Nat.add_sub_cancel]
-    rw [replaceGo_skip, replaceGo_noOcc _ _ _ hocc]
-    rw [List.dropWhile_cons]
-    simp only [beq_self_eq_true, if_true]
-    cases name with
-    | nil => rfl
-    | cons a n =>
-      rw [List.dropWhile_cons]
-      have : (a == sep) = false := by simpa using hn
-      rw [this]
-      simp
 
 end Qats.Binding
